@@ -250,7 +250,7 @@ func c06Expect(seq []c06Sym) string {
 	enabled := true
 	stack := []fr{}
 	n := 0
-	for _, s := range seq {
+	for i, s := range seq {
 		switch s.kind {
 		case 0:
 			n++
@@ -275,6 +275,10 @@ func c06Expect(seq []c06Sym) string {
 				f.active = false
 			case f.taken:
 				f.active = false
+			case f.name == "case" && s.name == "else" && c06LaterWhen(seq, i):
+				// the else clause of a case applies only when no when clause matches, wherever it is
+				// written: a when clause (they all match here) further on wins
+				f.active = false
 			default:
 				f.active, f.taken = f.outer, true
 			}
@@ -286,6 +290,27 @@ func c06Expect(seq []c06Sym) string {
 		}
 	}
 	return out
+}
+
+// c06LaterWhen reports whether the block whose clause stands at seq[i] has a when clause after it.
+func c06LaterWhen(seq []c06Sym, i int) bool {
+	depth := 0
+	for _, s := range seq[i+1:] {
+		switch s.kind {
+		case 1:
+			depth++
+		case 2:
+			if depth == 0 {
+				return false
+			}
+			depth--
+		case 3:
+			if depth == 0 && s.name == "when" {
+				return true
+			}
+		}
+	}
+	return false
 }
 
 // VerifC06Deep: every complete, well-nested sequence of up to 7 tokens over
